@@ -1339,9 +1339,11 @@ def _gen_small(tier, rng):
     yield {'op': 'apf', 'fn': 'first', 'sdt': 'int32', 'spans': [0, 1, 2], 'col': _col('int32', [1, 0]), 'dest': [7, 7], 'flt': [0]}
 
     # ---- R. keys given by their stored representation (value equality is not representation equality)
-    import random as _random
-    for c in _gen_repr(tier, _random.Random(rng.getrandbits(64)), tick):
-        yield c
+    import random as _random, os as _os
+    rrng = _random.Random(rng.getrandbits(64))
+    if _os.environ.get('VERIF_C08_REPR', '1') != '0':       # development switch (timing without this part)
+        for c in _gen_repr(tier, rrng, tick):
+            yield c
 
     # ---- H. seeded random longer inputs with runs
     def runs_rows(pool, n):
